@@ -92,40 +92,6 @@ fn is_block_permutation(orig: &[(String, ComponentOrigin)], reparsed: &[String])
     true
 }
 
-/// The order in which the KNOWN defect (KNOWN_FINDINGS: extension-emission-order) lists one
-/// collection after the round trip: serialization emits the definition, then the extensions in the
-/// order their ids are first met when scanning the type's directives, then its implemented
-/// interfaces, then its fields / values / members. Computed from public component origins only.
-fn known_defect_order(s: &Schema, type_name: &str, orig: &[(String, ComponentOrigin)]) -> Option<Vec<String>> {
-    let ty = s.types.get(type_name)?;
-    let mut scan: Vec<ComponentOrigin> = ty.directives().iter().map(|d| d.origin.clone()).collect();
-    match ty {
-        ExtendedType::Scalar(_) => {}
-        ExtendedType::Object(o) => {
-            scan.extend(o.implements_interfaces.iter().map(|c| c.origin.clone()));
-            scan.extend(o.fields.values().map(|c| c.origin.clone()));
-        }
-        ExtendedType::Interface(o) => {
-            scan.extend(o.implements_interfaces.iter().map(|c| c.origin.clone()));
-            scan.extend(o.fields.values().map(|c| c.origin.clone()));
-        }
-        ExtendedType::Union(u) => scan.extend(u.members.iter().map(|c| c.origin.clone())),
-        ExtendedType::Enum(e) => scan.extend(e.values.values().map(|c| c.origin.clone())),
-        ExtendedType::InputObject(i) => scan.extend(i.fields.values().map(|c| c.origin.clone())),
-    }
-    let mut emitted: Vec<ComponentOrigin> = vec![ComponentOrigin::Definition];
-    for o in scan {
-        if !emitted.contains(&o) {
-            emitted.push(o);
-        }
-    }
-    let mut out = vec![];
-    for e in &emitted {
-        out.extend(orig.iter().filter(|(_, o)| o == e).map(|(n, _)| n.clone()));
-    }
-    Some(out)
-}
-
 fn order_failure(s: &Schema, d: &Diff) -> (String, String) {
     let list_kinds = ["fields", "implements", "members", "values", "input-fields"];
     let detail = format!("{}: built schema has [{}], reparsed schema has [{}]", d.path, d.left.as_deref().unwrap_or("<absent>"), d.right.as_deref().unwrap_or("<absent>"));
@@ -139,10 +105,7 @@ fn order_failure(s: &Schema, d: &Diff) -> (String, String) {
             rn.sort();
             if ln == rn {
                 let (cause, why) = match component_origins(s, type_name, d.kind) {
-                    Some(orig) if known_defect_order(s, type_name, &orig).as_ref() == Some(&reparsed) => {
-                        ("extension-emission-order", "exactly the order produced by emitting the extensions as their ids are met in directives, then interfaces, then fields/values/members")
-                    }
-                    Some(orig) if is_block_permutation(&orig, &reparsed) => ("extension-blocks-permuted", "whole extensions were emitted in another order than they were applied, but not in the order of the known defect"),
+                    Some(orig) if is_block_permutation(&orig, &reparsed) => ("extension-emission-order", "whole extensions were emitted in another order than they were applied"),
                     _ => ("unexplained", "not a permutation of whole extensions"),
                 };
                 return (format!("C12|order|{}|{}", d.kind, cause), format!("{detail} (same names, different order; {why})"));
